@@ -90,7 +90,10 @@ func main() {
 		"(or any other new root of that version) visible, then the honest log must persist r'; after Finalize the follower reads back as the reference map. " +
 		"COMPETING CANDIDATES: in about half of the versions (a quarter on badger) one or two further non-finalized state roots are committed from the same finalized parent by fresh trees, before or after the main candidate, and IO versions get one to three IO candidates; " +
 		"BEFORE Finalize GetWriteLog(parent, candidate) of every candidate must either fail (counted by error class) or serve a log that applied to the reference map / a tree at the parent gives exactly that candidate; a PRNG-chosen candidate is finalized and checked as above; " +
-		"AFTER Finalize the discarded candidates' logs must be refused or still lead exactly to the discarded root. Minimal witnesses of the known findings are replayed first. " +
+		"AFTER Finalize the discarded candidates' logs must be refused or still lead exactly to the discarded root. " +
+		"REFUSED COMMITS: in a third of the batches (main, competing and IO trees alike) the batch is cut at one or two PRNG positions where the same tree makes a commit attempt that must be refused " +
+		"(already finalized version, version gap, version backwards, wrong namespace, CommitKnown with a hash the tree does not have, injected failure of the database batch commit), then goes on with at least one more operation and is committed successfully; " +
+		"the write log RETURNED by every successful Commit and the served one must hold exactly the net changes of the whole batch (applied to r they give r'; every entry concerns a touched key and carries its final state). Minimal witnesses of the known findings are replayed first. " +
 		"A pair is NON-TRIVIAL when its batch contains at least one removal and at least one no-op rewrite or remove-then-reinsert; distinct key = hash of (backend, follower, root type, reopened, operation list)."
 	r.Assume("the reference map and the harness are correct; neutrality of a corrupted log is decided by applying it to the reference map of r and comparing with the map of r'")
 	r.Assume("Apply is documented to bypass the log when the expected root already exists; corrupted logs are therefore applied before the honest one, at most one neutral corruption per pair, and pairs whose r' is the empty root are not corrupted")
@@ -173,6 +176,9 @@ type pairWitness struct {
 
 // pairFacts are the recorded facts the classifier uses.
 type pairFacts struct {
+	// RefusedCommits lists the commit attempts of the same tree that were refused in the middle
+	// of the batch (the tree then went on and was committed successfully).
+	RefusedCommits []string `json:"refused_commit_attempts_during_the_batch,omitempty"`
 	// Reopened: the tree that executed the batch was created with mkvs.NewWithRoot from the
 	// database (at SessionStart) and not by the commits of this process' tree object.
 	Reopened     bool   `json:"tree_reopened_from_db"`
@@ -324,6 +330,44 @@ func listRoots(ndb dbApi.NodeDB, version uint64) string {
 	}
 	sort.Strings(out)
 	return strings.Join(out, ",")
+}
+
+// logProblem judges a write log of a batch: applied to the contents of r it must give the contents
+// of r', and its entries must be exactly net changes of the batch: every entry concerns a key the
+// batch touched and carries the key's final state. It returns "" or what is wrong.
+func logProblem(before, after model, ops []op, wl writelog.WriteLog) string {
+	if got := applyLog(before, wl); !got.equal(after) {
+		var missing []string
+		for k, v := range after {
+			if gv, ok := got[k]; !ok || !bytes.Equal(gv, v) {
+				missing = append(missing, hex.EncodeToString([]byte(k)))
+			}
+		}
+		for k := range got {
+			if _, ok := after[k]; !ok {
+				missing = append(missing, hex.EncodeToString([]byte(k))+"(should be absent)")
+			}
+		}
+		sort.Strings(missing)
+		if len(missing) > 6 {
+			missing = append(missing[:6], "...")
+		}
+		return fmt.Sprintf("applied to the contents of r it does not give the contents of r' (%d vs %d keys; %d log entries; keys that end up wrong: %v)", len(got), len(after), len(wl), missing)
+	}
+	touched := map[string]bool{}
+	for _, o := range ops {
+		touched[string(o.Key)] = true
+	}
+	for _, e := range wl {
+		if !touched[string(e.Key)] {
+			return fmt.Sprintf("it has an entry for key %x, which the batch never touched", e.Key)
+		}
+		fin, ok := after[string(e.Key)]
+		if (e.Value == nil) == ok || (ok && !bytes.Equal(fin, e.Value)) {
+			return fmt.Sprintf("its entry for key %x does not carry the key's final state", e.Key)
+		}
+	}
+	return ""
 }
 
 func stackNow() []byte { return debug.Stack() }
@@ -482,6 +526,10 @@ func (rn *runner) runHistory(h int) {
 		return
 	}
 	defer leader.Close()
+	// The trees of the history talk to the leader database through a wrapper that can inject a
+	// failing batch commit.
+	fdb := &faultDB{NodeDB: leader}
+	var finalized *uint64
 	follower, err := openFollower(fbackend)
 	if err != nil {
 		r.Inconclusive("cannot open %s follower: %v", fbackend, err)
@@ -521,7 +569,7 @@ func (rn *runner) runHistory(h int) {
 			// as mkvs/cache-valuesize-underflow/... (own minimal witness; still reachable below
 			// through the real Apply path and the default-capacity tree of step 2) would otherwise
 			// corrupt the histories themselves.
-			tree = mkvs.NewWithRoot(nil, leader, prev, mkvs.Capacity(0, 0))
+			tree = mkvs.NewWithRoot(nil, fdb, prev, mkvs.Capacity(0, 0))
 			sessionStart = prev.Version
 			reopened = !prev.Hash.IsEmpty()
 			sessEmbedded = map[string]bool{}
@@ -578,18 +626,30 @@ func (rn *runner) runHistory(h int) {
 				eafter := applyOps(before, eops)
 				var et mkvs.Tree
 				if rootType == node.RootTypeState {
-					et = mkvs.NewWithRoot(nil, leader, start, mkvs.Capacity(0, 0))
+					et = mkvs.NewWithRoot(nil, fdb, start, mkvs.Capacity(0, 0))
 				} else {
-					et = mkvs.New(nil, leader, rootType)
+					et = mkvs.New(nil, fdb, rootType)
 				}
 				cursor = base
 				cursor.RootType, cursor.Version, cursor.Ops, cursor.Before, cursor.Phase = rootType.String(), v, eops, before.sorted(), "competing-candidate-commit"
 				where = "tree-batch-and-commit/" + backend
-				if err := applyToTree(ctx, et, eops); err != nil {
+				nRef := 0
+				if candRng.IntN(3) == 0 {
+					nRef = 1 + candRng.IntN(2)
+				}
+				where = "tree-batch-with-refused-commits/" + backend
+				attempts, accepted, err := applyWithRefusedCommits(ctx, et, fdb, eops, nRef, rootType, v, finalized, candRng, st)
+				if err != nil {
 					et.Close()
 					fail("c13/"+backend+"/harness/tree-op-failed", err.Error(), base)
 					return false
 				}
+				if accepted != "" {
+					et.Close()
+					st.add("observed/commit_expected_to_be_refused_was_accepted/"+backend, 1)
+					return false
+				}
+				where = "tree-batch-and-commit/" + backend
 				elog, ehash, err := et.Commit(ctx, testNs, v)
 				et.Close()
 				if err != nil {
@@ -601,7 +661,10 @@ func (rn *runner) runHistory(h int) {
 				st.add("competing_candidates_committed/"+backend+"/"+rootType.String(), 1)
 				order++
 				eend := node.Root{Namespace: testNs, Version: v, Type: rootType, Hash: ehash}
-				ef := pairFacts{Reopened: rootType == node.RootTypeState && !start.Hash.IsEmpty(), SessionStart: start.Version, SameHash: ehash.Equal(&start.Hash), EmptyCommitLog: len(elog) == 0}
+				ef := pairFacts{Reopened: rootType == node.RootTypeState && !start.Hash.IsEmpty(), SessionStart: start.Version, SameHash: ehash.Equal(&start.Hash), EmptyCommitLog: len(elog) == 0, RefusedCommits: attempts}
+				if len(attempts) > 0 {
+					st.add("batches_with_refused_commit_then_success/"+backend+"/"+rootType.String(), 1)
+				}
 				for _, k := range noopOnlyKeys(before, eops) {
 					if len(before) == 1 {
 						ef.SingleLeafRoot = true
@@ -625,10 +688,23 @@ func (rn *runner) runHistory(h int) {
 		cursor.StartRoot = fmt.Sprintf("%d:%s", prev.Version, prev.Hash)
 		cursor.Facts = pairFacts{Reopened: reopened, SessionStart: sessionStart}
 		where = "tree-batch-and-commit/" + backend
-		if err := applyToTree(ctx, tree, ops); err != nil {
+		frng := r.Rand(13, uint64(h), uint64(v), 17)
+		nRefused := 0
+		if frng.IntN(3) == 0 {
+			nRefused = 1 + frng.IntN(2)
+		}
+		where = "tree-batch-with-refused-commits/" + backend
+		attempts, accepted, err := applyWithRefusedCommits(ctx, tree, fdb, ops, nRefused, node.RootTypeState, v, finalized, frng, st)
+		if err != nil {
 			fail("c13/"+backend+"/harness/tree-op-failed", err.Error(), base)
 			return
 		}
+		if accepted != "" {
+			// A commit that was expected to be refused went through: the history cannot go on.
+			st.add("observed/commit_expected_to_be_refused_was_accepted/"+backend, 1)
+			return
+		}
+		where = "tree-batch-and-commit/" + backend
 		commitLog, hsh, err := tree.Commit(ctx, testNs, v)
 		if err != nil {
 			w := base
@@ -638,7 +714,10 @@ func (rn *runner) runHistory(h int) {
 		}
 		order++
 		end := node.Root{Namespace: testNs, Version: v, Type: node.RootTypeState, Hash: hsh}
-		facts := pairFacts{Reopened: reopened, SessionStart: sessionStart, SameHash: hsh.Equal(&prev.Hash), EmptyCommitLog: len(commitLog) == 0}
+		facts := pairFacts{Reopened: reopened, SessionStart: sessionStart, SameHash: hsh.Equal(&prev.Hash), EmptyCommitLog: len(commitLog) == 0, RefusedCommits: attempts}
+		if len(attempts) > 0 {
+			st.add("batches_with_refused_commit_then_success/"+backend+"/state-root", 1)
+		}
 		for _, k := range noopOnlyKeys(cur, ops) {
 			if len(cur) == 1 {
 				facts.SingleLeafRoot = true
@@ -726,6 +805,16 @@ func (rn *runner) runHistory(h int) {
 			w.StartRoot, w.EndRoot = fmt.Sprintf("%d:%s", p.start.Version, p.start.Hash), fmt.Sprintf("%d:%s", p.end.Version, p.end.Hash)
 			w.Facts, w.Before, w.Ops, w.CommitLog = p.facts, p.before.sorted(), p.ops, p.commitLog
 			cursor = w
+			csfx := ""
+			if len(p.facts.RefusedCommits) > 0 {
+				csfx = "/after-refused-commit"
+			}
+			if phase == "pending-candidate" {
+				if d := logProblem(p.before, p.after, p.ops, p.commitLog); d != "" {
+					fail("c13/"+backend+"/commit-returned-log-wrong"+csfx, fmt.Sprintf("write log returned by Commit of candidate #%d of %d: %s", p.order, len(all), d), w)
+				}
+				st.add("returned_logs_checked", 1)
+			}
 			where = phase + "/getwritelog/" + backend
 			r.Eval(1)
 			var served writelog.WriteLog
@@ -740,14 +829,14 @@ func (rn *runner) runHistory(h int) {
 			}
 			st.add(phase+"/getwritelog/"+backend+"/served", 1)
 			w.ServedLog = served
-			if got := applyLog(p.before, served); !got.equal(p.after) {
-				fail("c13/"+backend+"/"+phase+"/writelog-wrong-contents", fmt.Sprintf("write log served for candidate #%d of %d (%s): applied to the contents of the parent root it does not give the contents of that candidate (%d vs %d keys)", p.order, len(all), phase, len(got), len(p.after)), w)
+			if d := logProblem(p.before, p.after, p.ops, served); d != "" {
+				fail("c13/"+backend+"/"+phase+"/writelog-wrong-contents"+csfx, fmt.Sprintf("write log served for candidate #%d of %d (%s): %s", p.order, len(all), phase, d), w)
 			}
 			where = phase + "/apply-served-log-to-tree/" + backend
 			res := applyOnTree(ctx, leader, p.start, p.end, served, false)
 			if !res.ok(p.end) {
 				res2 := applyOnTree(ctx, leader, p.start, p.end, served, true)
-				sig := "c13/" + backend + "/" + phase + "/writelog-wrong-root"
+				sig := "c13/" + backend + "/" + phase + "/writelog-wrong-root" + csfx
 				switch {
 				case res2.ok(p.end):
 					sig = sigCacheFamily + "served-log-on-tree-at-r/" + res.symptom()
@@ -842,6 +931,8 @@ func (rn *runner) runHistory(h int) {
 			fail("c13/"+backend+"/finalize-failed/"+errClass(err), fmt.Sprintf("Finalize(%v) failed: %v", roots, err), w)
 			return
 		}
+		fv := v
+		finalized = &fv
 
 		// Sanity of the history itself: the leader's roots hold the reference contents.
 		where = "leader-readback/" + backend
@@ -886,6 +977,17 @@ func (rn *runner) runHistory(h int) {
 				st.add("pairs_with_noop_rewrite_of_loaded_embedded_leaf/"+backend, 1)
 			}
 
+			// The suffix tells apart pairs whose batch was interrupted by refused commit attempts.
+			sfx := ""
+			if len(p.facts.RefusedCommits) > 0 {
+				sfx = "/after-refused-commit"
+			}
+			// 0. The write log returned by Commit holds exactly the net changes of the batch.
+			if d := logProblem(p.before, p.after, p.ops, p.commitLog); d != "" {
+				fail("c13/"+backend+"/commit-returned-log-wrong"+sfx, "write log returned by Commit: "+d, w)
+			}
+			st.add("returned_logs_checked", 1)
+
 			// 1. The database must serve the write log of the pair.
 			cursor = w
 			where = "getwritelog/" + backend
@@ -921,8 +1023,8 @@ func (rn *runner) runHistory(h int) {
 					seen[string(e.Key)] = true
 				}
 				// 2. Applied to r it must produce exactly r'.
-				if got := applyLog(p.before, served); !got.equal(p.after) {
-					fail("c13/"+backend+"/writelog-wrong-contents", fmt.Sprintf("served write log applied to the contents of r does not give the contents of r' (%d vs %d keys)", len(got), len(p.after)), w)
+				if d := logProblem(p.before, p.after, p.ops, served); d != "" {
+					fail("c13/"+backend+"/writelog-wrong-contents"+sfx, "served write log: "+d, w)
 				}
 				where = "apply-served-log-to-tree/" + backend
 				res := applyOnTree(ctx, leader, p.start, p.end, served, false)
@@ -930,7 +1032,7 @@ func (rn *runner) runHistory(h int) {
 				if !res.ok(p.end) {
 					// Differential fact for the classifier: the same log on a tree that never evicts.
 					res2 := applyOnTree(ctx, leader, p.start, p.end, served, true)
-					sig := "c13/" + backend + "/writelog-wrong-root"
+					sig := "c13/" + backend + "/writelog-wrong-root" + sfx
 					switch {
 					case res2.ok(p.end):
 						sig = sigCacheFamily + "served-log-on-tree-at-r/" + res.symptom()
